@@ -360,3 +360,21 @@ package secec
 //@   ensures isdyn(result, drbgRFC6979) && !result.(*drbgRFC6979).needUpdate
 //@   ensures os2ip(result.(*drbgRFC6979).k) == hmac_voxh(hmac_voxh(0, drbg_v0(), 0, lift(val(x)), lift(val(e))), hmac_v(hmac_voxh(0, drbg_v0(), 0, lift(val(x)), lift(val(e))), drbg_v0()), 1, lift(val(x)), lift(val(e)))
 //@   ensures os2ip(result.(*drbgRFC6979).v) == hmac_v(hmac_voxh(hmac_voxh(0, drbg_v0(), 0, lift(val(x)), lift(val(e))), hmac_v(hmac_voxh(0, drbg_v0(), 0, lift(val(x)), lift(val(e))), drbg_v0()), 1, lift(val(x)), lift(val(e))), hmac_v(hmac_voxh(0, drbg_v0(), 0, lift(val(x)), lift(val(e))), drbg_v0()))
+//@
+//@ func (*PrivateKey).Equal
+//@   props C10 C18
+//@   split dyn x PrivateKey
+//@   ensures isdyn(x, PrivateKey) ==> (result <==> val(k.scalar) == val(x.(*PrivateKey).scalar))
+//@   ensures !isdyn(x, PrivateKey) ==> !result
+//@
+//@ func (*PrivateKey).Public
+//@   props C10 C18
+//@   ensures isdyn(result, PublicKey)
+//@
+//@ func GenerateKey
+//@   props C10 C18
+//@   split case result1 == nil
+//@   ensures result1 == nil ==> lift(val(result0.scalar)) == sampv(old(rdstate(osrand())), 8) && fresh(result0.scalar)
+//@   ensures result1 != nil ==> result0 == nil
+//@   modifies rdstate(osrand())
+//@   fresh result0
